@@ -22,7 +22,7 @@ func init() {
 			"non-trivial = the tree has >= 3 items and >= 1 block; distinct by canonical rendering",
 		Assumptions: []string{"attribute values are literals and constant constructors whose expected value is built alongside the AST", "label strings are compared after NFC normalisation"},
 		Quick:       Plan{Batches: 16, PerBatch: 1200, MinNonTrivial: 6000},
-		Thorough:    Plan{Batches: 64, PerBatch: 20000, MinNonTrivial: 300000},
+		Thorough:    Plan{Batches: 64, PerBatch: 60000, MinNonTrivial: 300000},
 		Case:        c02Case,
 	})
 }
